@@ -220,6 +220,34 @@ def genCatName (r : SwitchR) (args : List (Option Str)) : Str :=
     | f + 1 => if (r.catByName n).isSome then go f (n ++ "_alt".toList) else n
   go (r.allCats.length + 1) base
 
+/-- set the destination of the category with the given uuid -/
+def SwitchR.setDest (r : SwitchR) (u : Uid) (d : Dest) : SwitchR :=
+  r.mapCats fun c => if c.uid = u then { c with dest := d } else c
+
+/-- `update_default_category(destination)` -/
+def SwitchR.setDflt (r : SwitchR) (d : Dest) : SwitchR := { r with dflt := { r.dflt with dest := d } }
+
+/-- `add_choice`, a new case: the category it selects (default / existing by name / new) -/
+def choiceCat (r : SwitchR) (name : Str) (dest : Dest) (isDefault : Bool) : M (SwitchR × Uid) :=
+  if isDefault then
+    pure ({ r with dflt := { r.dflt with dest := dest, name := if name.isEmpty then r.dflt.name else name } },
+          r.dflt.uid)
+  else match r.catByName name with
+    | some c => pure (r.setDest c.uid dest, c.uid)
+    | none =>
+      if name.length > 115 then fail (.exc "RapidProRouterError: category name too long")
+      else do
+        let c ← mkCat name dest
+        pure ({ r with cats := r.cats ++ [c] }, c.uid)
+
+/-- `add_choice`, a new case: the case itself -/
+def choiceCase (r : SwitchR) (type : Str) (stored : List (Option Str)) (catUid : Uid) : M SwitchR := do
+  let s ← get
+  if s.testTypes.contains type then do
+    let ku ← fresh
+    pure { r with cases := r.cases ++ [{ uid := ku, type := type, args := stored, catUid := catUid }] }
+  else fail (.exc "ValueError: invalid router test type")
+
 /-- `SwitchRouter.add_choice` (is_default = False branch and the is_default = True branch) -/
 def addChoice (r : SwitchR) (var : Str) (type : Str) (args : List (Option Str)) (catName : Str)
     (dest : Dest) (isDefault : Bool) : M SwitchR := do
@@ -232,24 +260,13 @@ def addChoice (r : SwitchR) (var : Str) (type : Str) (args : List (Option Str)) 
     -- the case exists: only its category's destination is updated
     match r.allCats.find? (·.uid = k.catUid) with
     | none => fail (.exc "KeyError: no category with given uuid")
-    | some _ => pure (r.mapCats fun c => if c.uid = k.catUid then { c with dest := dest } else c)
-  | none =>
+    | some _ => pure (r.setDest k.catUid dest)
+  | none => do
     let name := if catName.isEmpty then genCatName r args else catName
-    let (r, catUid) ←
-      if isDefault then
-        pure ({ r with dflt := { r.dflt with dest := dest, name := if name.isEmpty then r.dflt.name else name } },
-              r.dflt.uid)
-      else match r.catByName name with
-        | some c => pure (r.mapCats (fun c' => if c'.uid = c.uid then { c' with dest := dest } else c'), c.uid)
-        | none => do
-          if name.length > 115 then fail (.exc "RapidProRouterError: category name too long")
-          let c ← mkCat name dest
-          pure ({ r with cats := r.cats ++ [c] }, c.uid)
-    if ¬ s.testTypes.contains type then fail (.exc "ValueError: invalid router test type")
-    let ku ← fresh
-    pure { r with cases := r.cases ++ [{ uid := ku, type := type, args := stored, catUid := catUid }] }
+    let rc ← choiceCat r name dest isDefault
+    choiceCase rc.1 type stored rc.2
 
-def randomAddChoice (r : RandomR) (name : Str) (dest : Dest) : M RandomR := do
+def randomAddChoice (r : RandomR) (name : Str) (dest : Dest) : M RandomR :=
   let nm := if name.isEmpty then "Bucket ".toList ++ natStr (r.cats.length + 2) else name
   match r.cats.find? (·.name = nm) with
   | some c => pure { r with cats := r.cats.map fun c' => if c'.uid = c.uid then { c' with dest := dest } else c' }
@@ -275,9 +292,8 @@ def NodeM.connectLoose (n : NodeM) (d : Dest) : NodeM :=
   | some (.rnd r) => { n with router := some (.rnd { r with cats := r.cats.map f }) }
 
 def newBasic (uid : Uid) : M NodeM := do
-  let e ← fresh        -- BaseNode.__init__ default exit
+  let _e ← fresh       -- BaseNode.__init__ default exit
   let e2 ← fresh       -- node.update_default_exit(None) replaces it
-  let _ := e
   pure { uid := uid, kind := .basic, actions := [], router := none, dexitUid := e2, dexitDest := .none }
 
 def newRouterNode (uid : Uid) (kind : NodeKind) (r : RouterM) : M NodeM := do
@@ -290,63 +306,86 @@ def parseNat? (s : Str) : Option Nat :=
   if s.isEmpty then none
   else if s.all Char.isDigit then some (s.foldl (fun a c => a * 10 + (c.toNat - '0'.toNat)) 0) else none
 
-/-- `_get_row_node` -/
-def rowNode (r : Row) (act : Option (Uid × Str)) : M NodeM := do
-  let basicTypes := ["send_message", "save_value", "add_to_group", "remove_from_group", "save_flow_result"].map String.toList
-  if ¬ r.nodeOk then fail (.exc "node constructor rejects its arguments")
-  let withAct := fun (n : NodeM) => match act with
-    | some a => { n with actions := n.actions ++ [a] }
-    | none => n
-  if basicTypes.contains r.type then
-    let u ← nodeUid r.nodeUuid
-    let n ← newBasic u
-    pure (withAct n)
-  else if r.type = "start_new_flow".toList then
-    let u ← nodeUid r.nodeUuid
+def NodeM.withAct (n : NodeM) : Option (Uid × Str) → NodeM
+  | some a => { n with actions := n.actions ++ [a] }
+  | none => n
+
+def basicTypes : List Str :=
+  ["send_message", "save_value", "add_to_group", "remove_from_group", "save_flow_result"].map String.toList
+
+/-- `EnterFlowNode` -/
+def enterNode (r : Row) : M NodeM := do
+  let u ← nodeUid r.nodeUuid
+  let au ← fresh
+  let sw ← newSwitch "@child.run.status".toList none none
+  let sw := { sw with dflt := { sw.dflt with name := "Expired".toList } }
+  let sw ← addChoice sw "@child.run.status".toList "has_only_text".toList [some "completed".toList] "Complete".toList .none false
+  let sw ← addChoice sw "@child.run.status".toList "has_only_text".toList [some "expired".toList] "Expired".toList .none true
+  let n ← newRouterNode u .enter (.sw sw)
+  pure { n with actions := [(au, r.ownAction.getD [])] }
+
+/-- `CallWebhookNode` / `TransferAirtimeNode` -/
+def hookNode (r : Row) : M NodeM := do
+  let u ← nodeUid r.nodeUuid
+  match r.resultKey with
+  | none => fail (.exc "RapidProActionError: field key")
+  | some key => do
+    let web := r.type = "call_webhook".toList
+    let operand := "@results.".toList ++ key ++ (if web then ".category".toList else [])
+    let sw ← newSwitch operand none none
+    let sw := { sw with dflt := { sw.dflt with name := "Failure".toList } }
+    let sw ← addChoice sw operand (if web then "has_only_text".toList else "has_category".toList)
+      [some "Success".toList] "Success".toList .none false
+    let n ← newRouterNode u (if web then .webhook else .airtime) (.sw sw)
     let au ← fresh
-    let sw ← newSwitch "@child.run.status".toList none none
-    let sw := { sw with dflt := { sw.dflt with name := "Expired".toList } }
-    let sw ← addChoice sw "@child.run.status".toList "has_only_text".toList [some "completed".toList] "Complete".toList .none false
-    let sw ← addChoice sw "@child.run.status".toList "has_only_text".toList [some "expired".toList] "Expired".toList .none true
-    let n ← newRouterNode u .enter (.sw sw)
     pure { n with actions := [(au, r.ownAction.getD [])] }
-  else if r.type = "call_webhook".toList ∨ r.type = "transfer_airtime".toList then
-    let u ← nodeUid r.nodeUuid
-    match r.resultKey with
-    | none => fail (.exc "RapidProActionError: field key")
-    | some key =>
-      let web := r.type = "call_webhook".toList
-      let operand := "@results.".toList ++ key ++ (if web then ".category".toList else [])
-      let sw ← newSwitch operand none none
-      let sw := { sw with dflt := { sw.dflt with name := "Failure".toList } }
-      let sw ← addChoice sw operand (if web then "has_only_text".toList else "has_category".toList)
-        [some "Success".toList] "Success".toList .none false
-      let n ← newRouterNode u (if web then .webhook else .airtime) (.sw sw)
-      let au ← fresh
-      pure { n with actions := [(au, r.ownAction.getD [])] }
-  else if r.type = "wait_for_response".toList then
-    let u ← nodeUid r.nodeUuid
-    let wait ← if r.noResponse.isEmpty then pure 0 else match parseNat? r.noResponse with
-      | some n => pure n
-      | none => fail (.exc "ValueError: int(no_response)")
-    let sw ← newSwitch "@input.text".toList (some r.saveName) (some wait)
-    newRouterNode u .switch (.sw sw)
-  else if r.type = "split_by_value".toList then
-    let u ← nodeUid r.nodeUuid
-    if r.expression.isEmpty then fail (.exc "ValueError: operand needed")
+
+def waitNode (r : Row) : M NodeM := do
+  let u ← nodeUid r.nodeUuid
+  let wait ← if r.noResponse.isEmpty then pure 0 else match parseNat? r.noResponse with
+    | some n => pure n
+    | none => fail (.exc "ValueError: int(no_response)")
+  let sw ← newSwitch "@input.text".toList (some r.saveName) (some wait)
+  newRouterNode u .switch (.sw sw)
+
+def splitValueNode (r : Row) : M NodeM := do
+  let u ← nodeUid r.nodeUuid
+  if r.expression.isEmpty then fail (.exc "ValueError: operand needed")
+  else do
     let sw ← newSwitch r.expression (some r.saveName) none
     newRouterNode u .switch (.sw sw)
-  else if r.type = "split_by_group".toList then
-    let u ← nodeUid r.nodeUuid
-    let sw ← newSwitch "@contact.groups".toList (some r.saveName) none
-    newRouterNode u .switch (.sw sw)
-  else if r.type = "split_random".toList then
-    let u ← nodeUid r.nodeUuid
-    newRouterNode u .random (.rnd { cats := [], resultName := some r.saveName })
-  else
-    let u ← nodeUid r.nodeUuid
-    let e ← fresh
-    pure (withAct { uid := u, kind := .basic, actions := [], router := none, dexitUid := e, dexitDest := .none })
+
+def splitGroupNode (r : Row) : M NodeM := do
+  let u ← nodeUid r.nodeUuid
+  let sw ← newSwitch "@contact.groups".toList (some r.saveName) none
+  newRouterNode u .switch (.sw sw)
+
+def splitRandomNode (r : Row) : M NodeM := do
+  let u ← nodeUid r.nodeUuid
+  newRouterNode u .random (.rnd { cats := [], resultName := some r.saveName })
+
+def otherNode (r : Row) (act : Option (Uid × Str)) : M NodeM := do
+  let u ← nodeUid r.nodeUuid
+  let e ← fresh
+  pure (NodeM.withAct { uid := u, kind := .basic, actions := [], router := none, dexitUid := e, dexitDest := .none } act)
+
+def basicNode (r : Row) (act : Option (Uid × Str)) : M NodeM := do
+  let u ← nodeUid r.nodeUuid
+  let n ← newBasic u
+  pure (n.withAct act)
+
+/-- `_get_row_node` -/
+def rowNode (r : Row) (act : Option (Uid × Str)) : M NodeM :=
+  if r.nodeOk then
+    if basicTypes.contains r.type then basicNode r act
+    else if r.type = "start_new_flow".toList then enterNode r
+    else if r.type = "call_webhook".toList ∨ r.type = "transfer_airtime".toList then hookNode r
+    else if r.type = "wait_for_response".toList then waitNode r
+    else if r.type = "split_by_value".toList then splitValueNode r
+    else if r.type = "split_by_group".toList then splitGroupNode r
+    else if r.type = "split_random".toList then splitRandomNode r
+    else otherNode r act
+  else fail (.exc "node constructor rejects its arguments")
 
 def lower (s : Str) : Str := s.map Char.toLower
 
@@ -367,6 +406,10 @@ def hasLoose : Nat → Nat → M Bool
       | none => parents.anyM fun (p, _) => hasLoose fuel p
     | .block children => children.anyM fun c => hasLoose fuel c
 
+def connectNode (i : Nat) (d : Dest) : M Unit := do
+  let n ← getNode i
+  setNode i (n.connectLoose d)
+
 /-- `connect_loose_exits` -/
 def connectLoose : Nat → Nat → Dest → M Unit
   | 0, _, _ => fail .fuel
@@ -375,10 +418,10 @@ def connectLoose : Nat → Nat → Dest → M Unit
     | .row nodes _ =>
       match nodes.getLast? with
       | none => pure ()
-      | some i => do setNode i ((← getNode i).connectLoose d)
+      | some i => connectNode i d
     | .noop parents router =>
       match router with
-      | some i => do setNode i ((← getNode i).connectLoose d)
+      | some i => connectNode i d
       | none => parents.forM fun (p, _) => connectLoose fuel p d
     | .block children => children.forM fun c => connectLoose fuel c d
 
@@ -393,72 +436,117 @@ def updSwitch (i : Nat) (f : SwitchR → M SwitchR) : M Unit := do
 def setCatDestByName (r : SwitchR) (name : Str) (d : Dest) : M SwitchR :=
   match r.catByName name with
   | none => fail (.exc "AttributeError: category not found")
-  | some c => pure (r.mapCats fun c' => if c'.uid = c.uid then { c' with dest := d } else c')
+  | some c => pure (r.setDest c.uid d)
+
+def setDfltM (d : Dest) (r : SwitchR) : M SwitchR := pure (r.setDflt d)
+
+/-- `add_exit` of a row group, unconditional edge: the default exit / default category -/
+def rowExitBlank (i : Nat) (n : NodeM) (d : Dest) : M Unit :=
+  match n.kind with
+  | .basic => do
+    let e ← fresh
+    setNode i { n with dexitUid := e, dexitDest := d }
+  | .enter => fail (.critical "EnterFlowNode does not support default exits.")
+  | _ => updSwitch i (setDfltM d)
+
+def rowExitEnter (i : Nat) (c : Cond) (d : Dest) : M Unit :=
+  let v := lower c.value
+  if v = "complete".toList ∨ v = "completed".toList then
+    updSwitch i fun r => setCatDestByName r "Complete".toList d
+  else if v = "expired".toList then updSwitch i (setDfltM d)
+  else fail (.critical "Condition from start_new_flow must be 'Completed' or 'Expired'.")
+
+def rowExitHook (i : Nat) (c : Cond) (d : Dest) : M Unit :=
+  let v := lower c.value
+  if v = "success".toList then updSwitch i fun r => setCatDestByName r "Success".toList d
+  else if v = "failure".toList then updSwitch i (setDfltM d)
+  else fail (.critical "Condition from call_webhook/transfer_airtime must be 'Success' or 'Failure'.")
+
+def rowExitNoResp (i : Nat) (n : NodeM) (d : Dest) : M Unit :=
+  match n.router with
+  | some (.sw r) =>
+    match r.noResp, r.wait with
+    | some nr, some (_ + 1) => setNode i { n with router := some (.sw { r with noResp := some { nr with dest := d } }) }
+    | _, _ => pure ()     -- a warning only: the edge is dropped
+  | _ => pure ()
+
+/-- a node created behind the last node of a row group joins the group -/
+def attachRowNode (g : Nat) (nodes : List Nat) (rowType : Str) (rn : NodeM) : M Nat := do
+  let j ← addNode rn
+  setGrp g (.row (nodes ++ [j]) rowType)
+  pure j
+
+/-- a basic node with a conditional edge: a router node is created behind it -/
+def routerBehind (g : Nat) (nodes : List Nat) (rowType : Str) (i : Nat) (n : NodeM)
+    (operandV : Str) (waitT : Option Nat) : M (Nat × NodeM) := do
+  let u ← fresh
+  if operandV.isEmpty then fail (.exc "ValueError: operand needed")
+  else do
+    let sw ← newSwitch operandV none waitT
+    let rn ← newRouterNode u .switch (.sw (sw.setDflt n.dexitDest))
+    let j ← attachRowNode g nodes rowType rn
+    let e ← fresh
+    setNode i { n with dexitUid := e, dexitDest := .node u }
+    pure (j, rn)
+
+/-- the choice is added to the router of node `i` (whose current value is `n`) -/
+def nodeAddChoice (i : Nat) (n : NodeM) (operandV ctype : Str) (args : List (Option Str)) (c : Cond)
+    (d : Dest) : M Unit :=
+  match n.router with
+  | some (.sw r) => do
+    let r' ← addChoice r operandV (if ctype.isEmpty then "has_any_word".toList else ctype) args c.name d false
+    setNode i { n with router := some (.sw r') }
+  | some (.rnd r) => do
+    let r' ← randomAddChoice r (if c.name.isEmpty then c.value else c.name) d
+    setNode i { n with router := some (.rnd r') }
+  | none => fail (.exc "no router")
+
+def operandOf (n : NodeM) : Str :=
+  match n.router with
+  | some (.sw r) => r.operand
+  | _ => []
+
+/-- a non-trivial condition: fill in defaults, create the router if need be, add the choice -/
+def rowExitCond (g : Nat) (nodes : List Nat) (rowType : Str) (i : Nat) (n : NodeM) (d : Dest)
+    (c : Cond) : M Unit := do
+  let isGroup := rowType = "split_by_group".toList
+  let isSplit := isGroup ∨ rowType = "split_by_value".toList
+  let ctype := if isGroup then "has_group".toList else c.type
+  let args : List (Option Str) := if isGroup then [none, some c.value] else [some c.value]
+  let ow : Str × Option Nat :=
+    if isSplit then (operandOf n, none)
+    else if ¬ c.var.isEmpty then (c.var, none)
+    else ("@input.text".toList, some 0)
+  let jn ← (if n.kind = .basic then routerBehind g nodes rowType i n ow.1 ow.2 else pure (i, n))
+  nodeAddChoice jn.1 jn.2 ow.1 ctype args c d
 
 /-- `RowNodeGroup.add_exit` -/
-def rowAddExit (g : Nat) (nodes : List Nat) (rowType : Str) (d : Dest) (c : Cond) : M Unit := do
-  let some i := nodes.getLast? | fail (.exc "empty row group")
-  let n ← getNode i
-  if c.blank ∧ n.kind ≠ .random then
-    match n.kind with
-    | .basic => do
-      let e ← fresh
-      setNode i { n with dexitUid := e, dexitDest := d }
-    | .enter => fail (.critical "EnterFlowNode does not support default exits.")
-    | _ => updSwitch i fun r => pure { r with dflt := { r.dflt with dest := d } }
-  else if n.kind = .enter then
-    let v := lower c.value
-    if v = "complete".toList ∨ v = "completed".toList then
-      updSwitch i fun r => setCatDestByName r "Complete".toList d
-    else if v = "expired".toList then
-      updSwitch i fun r => pure { r with dflt := { r.dflt with dest := d } }
-    else fail (.critical "Condition from start_new_flow must be 'Completed' or 'Expired'.")
-  else if n.kind = .webhook ∨ n.kind = .airtime then
-    let v := lower c.value
-    if v = "success".toList then updSwitch i fun r => setCatDestByName r "Success".toList d
-    else if v = "failure".toList then updSwitch i fun r => pure { r with dflt := { r.dflt with dest := d } }
-    else fail (.critical "Condition from call_webhook/transfer_airtime must be 'Success' or 'Failure'.")
-  else if n.kind = .switch ∧ lower c.value = "no response".toList then
-    match n.router with
-    | some (.sw r) =>
-      match r.noResp, r.wait with
-      | some nr, some (_ + 1) => setNode i { n with router := some (.sw { r with noResp := some { nr with dest := d } }) }
-      | _, _ => pure ()     -- a warning only: the edge is dropped
-    | _ => pure ()
-  else do
-    -- a non-trivial condition: fill in defaults
-    let isGroup := rowType = "split_by_group".toList
-    let isSplit := isGroup ∨ rowType = "split_by_value".toList
-    let ctype := if isGroup then "has_group".toList else c.type
-    let args : List (Option Str) := if isGroup then [none, some c.value] else [some c.value]
-    let operandOf : NodeM → Str := fun n => match n.router with
-      | some (.sw r) => r.operand
-      | _ => []
-    let (operandV, waitT) : Str × Option Nat :=
-      if isSplit then (operandOf n, none)
-      else if ¬ c.var.isEmpty then (c.var, none)
-      else ("@input.text".toList, some 0)
-    let (i, n) ← (if n.kind = .basic then do
-        -- a basic node with a conditional edge: a router node is created behind it
-        let u ← fresh
-        if operandV.isEmpty then fail (.exc "ValueError: operand needed")
-        let sw ← newSwitch operandV none waitT
-        let sw := { sw with dflt := { sw.dflt with dest := n.dexitDest } }
-        let rn ← newRouterNode u .switch (.sw sw)
-        let j ← addNode rn
-        let e ← fresh
-        setNode i { n with dexitUid := e, dexitDest := .node u }
-        setGrp g (.row (nodes ++ [j]) rowType)
-        pure (j, rn)
-      else pure (i, n))
-    match n.router with
-    | some (.sw r) => do
-      let r' ← addChoice r operandV (if ctype.isEmpty then "has_any_word".toList else ctype) args c.name d false
-      setNode i { n with router := some (.sw r') }
-    | some (.rnd r) => do
-      let r' ← randomAddChoice r (if c.name.isEmpty then c.value else c.name) d
-      setNode i { n with router := some (.rnd r') }
-    | none => fail (.exc "no router")
+def rowAddExit (g : Nat) (nodes : List Nat) (rowType : Str) (d : Dest) (c : Cond) : M Unit :=
+  match nodes.getLast? with
+  | none => fail (.exc "empty row group")
+  | some i => do
+    let n ← getNode i
+    if c.blank ∧ n.kind ≠ .random then rowExitBlank i n d
+    else if n.kind = .enter then rowExitEnter i c d
+    else if n.kind = .webhook ∨ n.kind = .airtime then rowExitHook i c d
+    else if n.kind = .switch ∧ lower c.value = "no response".toList then rowExitNoResp i n d
+    else rowExitCond g nodes rowType i n d c
+
+/-- exits of the router node of a `no_op` row -/
+def noopRouterExit (j : Nat) (d : Dest) (c : Cond) : M Unit :=
+  if c.value.isEmpty then updSwitch j (setDfltM d)
+  else
+    updSwitch j fun r =>
+      addChoice r c.var (if c.type.isEmpty then "has_any_word".toList else c.type) [some c.value] c.name d false
+
+def connectIfLoose (fuel : Nat) (d : Dest) (ch : Nat) : M Unit := do
+  if ← hasLoose fuel ch then connectLoose fuel ch d else pure ()
+
+/-- the router node of a `no_op` row is created when its first conditional exit is added -/
+def attachNoopRouter (g : Nat) (parents : List (Nat × Cond)) (rn : NodeM) : M Nat := do
+  let j ← addNode rn
+  setGrp g (.noop parents (some j))
+  pure j
 
 /-- `add_exit` of any group -/
 def addExit : Nat → Nat → Dest → Cond → M Unit
@@ -466,33 +554,25 @@ def addExit : Nat → Nat → Dest → Cond → M Unit
   | fuel + 1, g, d, c => do
     match ← getGrp g with
     | .row nodes rowType => rowAddExit g nodes rowType d c
-    | .block children => do
-      if ¬ c.blank then fail (.critical "Cannot attach conditional edges to a block.")
-      if ¬ (← hasLoose (fuel + 1) g) then fail (.critical "Block has no loose exit to connect to.")
-      children.forM fun ch => do
-        if ← hasLoose (fuel + 1) ch then connectLoose (fuel + 1) ch d
+    | .block children =>
+      if c.blank then do
+        if ← hasLoose (fuel + 1) g then children.forM (connectIfLoose (fuel + 1) d)
+        else fail (.critical "Block has no loose exit to connect to.")
+      else fail (.critical "Cannot attach conditional edges to a block.")
     | .noop parents router =>
       match router with
       | none =>
         if c.blank then
           parents.forM fun (p, pc) => addExit fuel p d pc
+        else if c.var.isEmpty then fail (.critical "Condition must have a variable.")
         else do
-          if c.var.isEmpty then fail (.critical "Condition must have a variable.")
           let u ← fresh
           let sw ← newSwitch c.var none none
           let rn ← newRouterNode u .switch (.sw sw)
-          let j ← addNode rn
-          setGrp g (.noop parents (some j))
+          let j ← attachNoopRouter g parents rn
           parents.forM fun (p, pc) => addExit fuel p (.node u) pc
           noopRouterExit j d c
       | some j => noopRouterExit j d c
-where
-  noopRouterExit (j : Nat) (d : Dest) (c : Cond) : M Unit :=
-    if c.value.isEmpty then
-      updSwitch j fun r => pure { r with dflt := { r.dflt with dest := d } }
-    else
-      updSwitch j fun r =>
-        addChoice r c.var (if c.type.isEmpty then "has_any_word".toList else c.type) [some c.value] c.name d false
 
 /-! ### the parser -/
 
@@ -503,33 +583,37 @@ def fuelOf : M Nat := do
 def lookupRow (id : Str) : M (Option Nat) := do
   pure (((← get).rowIds.find? (·.1 = id)).map (·.2))
 
+def mostRecentIn (groups : Array Grp) : List Nat → Option Nat
+  | [] => none
+  | b :: bs =>
+    match groups[b]? with
+    | some (.block children) =>
+      match children.getLast? with
+      | some c => some c
+      | none => mostRecentIn groups bs
+    | _ => mostRecentIn groups bs
+
 /-- `most_recent_node_group` -/
 def mostRecent : M (Option Nat) := do
   let s ← get
-  let rec go : List Nat → Option Nat
-    | [] => none
-    | b :: bs =>
-      match s.groups[b]? with
-      | some (.block children) =>
-        match children.getLast? with
-        | some c => some c
-        | none => go bs
-      | _ => go bs
-  pure (go s.stack)
+  pure (mostRecentIn s.groups s.stack)
 
 /-- `_get_node_group_from_edge`: `none` = no edge -/
-def groupOfEdge (e : Edge) : M (Option Nat) := do
+def groupOfEdge (e : Edge) : M (Option Nat) :=
   if e.from_ = "start".toList then pure none
-  else if ¬ e.from_.isEmpty then
+  else if ¬ e.from_.isEmpty then do
     match ← lookupRow e.from_ with
     | some g => pure (some g)
     | none => fail (.critical "Edge from row_id which does not exist.")
   else mostRecent
 
-def addRowEdge (e : Edge) (d : Dest) : M Unit := do
+def addRowEdge (d : Dest) (e : Edge) : M Unit := do
   match ← groupOfEdge e with
   | none => pure ()
   | some g => do addExit (← fuelOf) g d e.cond
+
+def addRowId (rowId : Str) (g : Nat) : M Unit :=
+  if rowId.isEmpty then pure () else modify fun s => { s with rowIds := (rowId, g) :: s.rowIds }
 
 /-- `append_node_group` -/
 def appendGroup (g : Nat) (rowId : Str) : M Unit := do
@@ -540,7 +624,7 @@ def appendGroup (g : Nat) (rowId : Str) : M Unit := do
     match s.groups[b]? with
     | some (.block children) => do
       setGrp b (.block (children ++ [g]))
-      if ¬ rowId.isEmpty then modify fun s => { s with rowIds := (rowId, g) :: s.rowIds }
+      addRowId rowId g
     | _ => fail (.exc "stack entry is not a block")
 
 /-- `entry_node` of a group -/
@@ -556,78 +640,101 @@ def entryNode : Nat → Nat → M Nat
       | some c => entryNode fuel c
       | none => fail (.exc "IndexError: empty block has no entry node")
 
+/-- one incoming edge of a `no_op` row -/
+def noopEdge (g : Nat) (e : Edge) : M Unit := do
+  match ← groupOfEdge e with
+  | none => pure ()
+  | some src => do
+    match ← getGrp g with
+    | .noop parents router => do
+      setGrp g (.noop (parents ++ [(src, e.cond)]) router)
+      match router with
+      | some j => do
+        let n ← getNode j
+        addExit (← fuelOf) src (.node n.uid) e.cond
+      | none => pure ()
+    | _ => fail (.exc "noop group")
+
 /-- `_parse_noop_row` -/
 def parseNoop (edges : List Edge) (rowId : Str) : M Unit := do
   let g ← addGrp (.noop [] none)
-  for e in edges do
-    match ← groupOfEdge e with
-    | none => pure ()
-    | some src => do
-      match ← getGrp g with
-      | .noop parents router => do
-        setGrp g (.noop (parents ++ [(src, e.cond)]) router)
-        match router with
-        | some j => do addExit (← fuelOf) src (.node (← getNode j).uid) e.cond
-        | none => pure ()
-      | _ => fail (.exc "noop group")
+  edges.forM (noopEdge g)
   appendGroup g rowId
 
 def dropTrivial (es : List Edge) : List Edge :=
   (es.zipIdx.filter fun (e, i) => i = 0 || !e.trivial).map (·.1)
 
-/-- `_parse_row` (include_if already decided by the event sequence) -/
-def parseRow (r0 : Row) : M Unit := do
-  let r := { r0 with edges := dropTrivial r0.edges }
-  if r.type = "hard_exit".toList ∨ r.type = "loose_exit".toList then
-    let d := if r.type = "hard_exit".toList then Dest.hard else Dest.none
-    r.edges.forM fun e => addRowEdge e d
-  else if r.type = "go_to".toList then
-    let ds := if r.dests.length = 1 then List.replicate r.edges.length (r.dests.headD []) else r.dests
-    if ds.length ≠ r.edges.length then fail (.critical "go_to: number of destinations")
-    for (e, dst) in r.edges.zip ds do
-      match ← lookupRow dst with
-      | none => fail (.exc "KeyError: go_to destination")
-      | some g => do
-        let i ← entryNode (← fuelOf) g
-        addRowEdge e (.node (← getNode i).uid)
-  else if r.type = "no_op".toList then parseNoop r.edges r.rowId
-  else if r.type = "insert_as_block".toList then fail (.unsupported "insert_as_block row outside an insert event")
+/-- one edge of a `go_to` row -/
+def gotoEdge (ed : Edge × Str) : M Unit := do
+  match ← lookupRow ed.2 with
+  | none => fail (.exc "KeyError: go_to destination")
+  | some g => do
+    let i ← entryNode (← fuelOf) g
+    let n ← getNode i
+    addRowEdge (.node n.uid) ed.1
+
+def parseGoto (r : Row) : M Unit :=
+  let ds := if r.dests.length = 1 then List.replicate r.edges.length (r.dests.headD []) else r.dests
+  if ds.length ≠ r.edges.length then fail (.critical "go_to: number of destinations")
+  else (r.edges.zip ds).forM gotoEdge
+
+/-- a row naming an existing node adds its action to that node -/
+def mergeRow (r : Row) (ex : Nat) (act : Str) : M Unit :=
+  match r.edges with
+  | [e] =>
+    if ¬ e.cond.blank then fail (.critical "merge: exactly one unconditional incoming edge")
+    else do
+      let pred ← if e.from_.isEmpty then mostRecent else lookupRow e.from_
+      match pred with
+      | none => fail (.exc "AttributeError: no predecessor group")
+      | some pg => do
+        let en ← entryNode (← fuelOf) pg
+        if en ≠ ex then fail (.critical "merge: edge must come from a node with that name")
+        else do
+          let au ← fresh
+          let n ← getNode ex
+          setNode ex { n with actions := n.actions ++ [(au, act)] }
+          if r.rowId.isEmpty then pure ()
+          else do
+            match ← lookupRow e.from_ with
+            | some g0 => modify fun s => { s with rowIds := (r.rowId, g0) :: s.rowIds }
+            | none => fail (.exc "KeyError: row_id_to_nodegroup[from]")
+  | _ => fail (.critical "merge: exactly one unconditional incoming edge")
+
+def rowAction (r : Row) : M (Option (Uid × Str)) :=
+  match r.action with
+  | some a => do let au ← fresh; pure (some (au, a))
+  | none => pure none
+
+/-- a row that creates its own node (and row group) -/
+def newRow (r : Row) (nodeName : Str) : M Unit := do
+  let act ← rowAction r
+  let n ← rowNode r act
+  let i ← addNode n
+  r.edges.forM (addRowEdge (.node n.uid))
+  let g ← addGrp (.row [i] r.type)
+  appendGroup g r.rowId
+  modify fun s => { s with names := (nodeName, i) :: s.names }
+
+def actionRow (r : Row) : M Unit :=
+  if ¬ r.actionOk then fail (.critical "RapidProActionError")
   else do
-    if ¬ r.actionOk then fail (.critical "RapidProActionError")
     let nodeName := if r.nodeUuid.isEmpty then r.nodeName else r.nodeUuid
     let s ← get
     let existing := if nodeName.isEmpty then none else (s.names.find? (·.1 = nodeName)).map (·.2)
     match existing, r.action with
-    | some ex, some act => do
-      -- add an action to an existing node of that name
-      match r.edges with
-      | [e] =>
-        if ¬ e.cond.blank then fail (.critical "merge: exactly one unconditional incoming edge")
-        let pred ← if e.from_.isEmpty then mostRecent else lookupRow e.from_
-        match pred with
-        | none => fail (.exc "AttributeError: no predecessor group")
-        | some pg => do
-          let en ← entryNode (← fuelOf) pg
-          if en ≠ ex then fail (.critical "merge: edge must come from a node with that name")
-          let au ← fresh
-          let n ← getNode ex
-          setNode ex { n with actions := n.actions ++ [(au, act)] }
-          if ¬ r.rowId.isEmpty then
-            match ← lookupRow e.from_ with
-            | some g0 => modify fun s => { s with rowIds := (r.rowId, g0) :: s.rowIds }
-            | none => fail (.exc "KeyError: row_id_to_nodegroup[from]")
-      | _ => fail (.critical "merge: exactly one unconditional incoming edge")
-    | _, _ => do
-      let act ← match r.action with
-        | some a => do let au ← fresh; pure (some (au, a))
-        | none => pure none
-      let n ← rowNode r act
-      let uid := n.uid
-      let i ← addNode n
-      r.edges.forM fun e => addRowEdge e (.node uid)
-      let g ← addGrp (.row [i] r.type)
-      appendGroup g r.rowId
-      modify fun s => { s with names := (nodeName, i) :: s.names }
+    | some ex, some act => mergeRow r ex act
+    | _, _ => newRow r nodeName
+
+/-- `_parse_row` (include_if already decided by the event sequence) -/
+def parseRow (r0 : Row) : M Unit :=
+  let r := { r0 with edges := dropTrivial r0.edges }
+  if r.type = "hard_exit".toList ∨ r.type = "loose_exit".toList then
+    r.edges.forM (addRowEdge (if r.type = "hard_exit".toList then Dest.hard else Dest.none))
+  else if r.type = "go_to".toList then parseGoto r
+  else if r.type = "no_op".toList then parseNoop r.edges r.rowId
+  else if r.type = "insert_as_block".toList then fail (.unsupported "insert_as_block row outside an insert event")
+  else actionRow r
 
 /-- events of the parser (Sugar.Ev), with the begin row's edges for `open`; an `insert_as_block`
 row carries the events of the nested parser that instantiates the template -/
@@ -638,34 +745,47 @@ inductive Event where
   | insert (r : Row) (body : List Event)              -- `_parse_insert_as_block_row`
   deriving Repr
 
+def openGroup (edges : List Edge) (starting : Bool) : M Unit := do
+  let b ← addGrp (.block [])
+  modify fun s => { s with stack := b :: s.stack }
+  if starting then pure () else parseNoop (dropTrivial edges) []
+
+def closeGroup (rowId : Str) : M Unit := do
+  let s ← get
+  match s.stack with
+  | b :: rest@(_ :: _) => do
+    set { s with stack := rest }
+    appendGroup b rowId
+  | _ => fail (.exc "pop from root")
+
+/-- `get_node_group`: a nested FlowParser (its own stack, row ids and node names) over the same
+objects -/
+def insertEnter : M (St × Nat) := do
+  let s ← get
+  let b ← addGrp (.block [])
+  modify fun s' => { s' with stack := [b], rowIds := [], names := [] }
+  pure (s, b)
+
+/-- `parse_as_block` returns the nested parser's root group; the row's edges lead to its entry -/
+def insertLeave (s : St) (b : Nat) (r : Row) : M Unit := do
+  let s2 ← get
+  if s2.stack.length ≠ 1 then fail (.critical "Unexpected end of flow.")
+  else do
+    modify fun s' => { s' with stack := s.stack, rowIds := s.rowIds, names := s.names }
+    let i ← entryNode (← fuelOf) b
+    let n ← getNode i
+    (dropTrivial r.edges).forM (addRowEdge (.node n.uid))
+    appendGroup b r.rowId
+
 mutual
 def step : Event → M Unit
   | .row r => parseRow r
-  | .openGroup edges starting => do
-    let b ← addGrp (.block [])
-    modify fun s => { s with stack := b :: s.stack }
-    if ¬ starting then parseNoop (dropTrivial edges) []
-  | .closeGroup rowId => do
-    let s ← get
-    match s.stack with
-    | b :: rest@(_ :: _) => do
-      set { s with stack := rest }
-      appendGroup b rowId
-    | _ => fail (.exc "pop from root")
+  | .openGroup edges starting => openGroup edges starting
+  | .closeGroup rowId => closeGroup rowId
   | .insert r body => do
-    -- `get_node_group`: a nested FlowParser (its own stack, row ids and node names) over the
-    -- same objects; `parse_as_block` returns its root group
-    let s ← get
-    let b ← addGrp (.block [])
-    modify fun s' => { s' with stack := [b], rowIds := [], names := [] }
+    let sb ← insertEnter
     steps body
-    let s2 ← get
-    if s2.stack.length ≠ 1 then fail (.critical "Unexpected end of flow.")
-    modify fun s' => { s' with stack := s.stack, rowIds := s.rowIds, names := s.names }
-    let i ← entryNode (← fuelOf) b
-    let uid := (← getNode i).uid
-    (dropTrivial r.edges).forM fun e => addRowEdge e (.node uid)
-    appendGroup b r.rowId
+    insertLeave sb.1 sb.2 r
 def steps : List Event → M Unit
   | [] => pure ()
   | e :: es => do step e; steps es
